@@ -180,11 +180,33 @@ CLAIMS["C33"] = dict(engine="services", level="exploration",
     note="Trusted: TLC (enumeration of the request universe, seeded RandomElement for sequences), the harness's concretisation table abstract request -> real request structure, catch_unwind and one-process-per-case re-runs for aborts. This is exploration driven by the model: the specification owns the request universe and the predicate, not the services' semantics (those are C19-C32, C34, C40).",
     text="Services.tla defines the request universe of the services dispatched by MessageHandler::handle_message (31 services x adversarial parameter classes: missing / null ids, self references, unknown namespaces, reserved characters in browse names, malformed index ranges, mismatching attribute structures, malformed event where-clauses, NaN / zero / huge numbers, bogus continuation points and ids; 30141 requests) and the predicate 'answered by a response or ServiceFault, no failure, the session still served afterwards'; TLC enumerates the universe (thorough: all of it; quick: a seeded sample) and draws sequences of 4 requests; each is built as a real request and sent through the real message handler on an activated session, followed by two subscription timer ticks and a probe Read; TLC judges every observation with the predicate.")
 
+
+CH_NOTE = ("Trusted: TLC and the CommunityModules; openssl primitives; the harness concretisation (h_channel/src/chan.rs: channel pairs from the same nonces, messages of exact encoded size, field-by-field chunk crafting with real crypto; mint.rs certificates); certificate DER lengths and smallest message sizes measured by the harness and handed to TLC as constants. Crypto is uninterpreted in the specifications.")
+CLAIMS.update({
+    "C07": dict(engine="layout", level="model_checking", note=CH_NOTE + " One known finding: the sender pads MSG chunks in Sign mode too (multi-chunk Sign messages reassemble with padding), reported as KNOWN-FINDING.",
+                text="ChunkLayout.tla writes Layout(policy, mode, chunk size, message length) from the policies' block and signature sizes (incl. the extra padding byte for keys above 2048 bits); TLC proves Reassemble(Receive(Secure(Split(m)))) = m plus consecutive sequence numbers, one request id, final flag only on the last chunk and secured size <= chunk size on the corrected design for symmetric MSG and asymmetric OPN chunks x 6 policies x 3 modes x chunk sizes x boundary message lengths x key sizes, and emits each case; each runs through the real Chunker::encode -> apply_security -> verify_and_remove_security -> Chunker::decode with a real message of exactly that size; TLC judges headers, sizes and equality."),
+    "C08": dict(engine="tamper", level="model_checking", note=CH_NOTE,
+                text="Tamper.tla models a secured chunk symbolically (uninterpreted Mac/Enc) with adversary actions Flip(region) for 15 regions, Truncate, Extend, foreign keys / signer / recipient / certificate; TLC checks that the specified receiver delivers only unmodified chunks secured under its keys (and shows two weakened receivers violating); the harness applies each action at EVERY byte position (bit 0 and bit 7), every proper prefix and 19 extension lengths of real secured chunks for every policy and both signing modes and reports the set of outcomes; TLC judges that no mutant is delivered, as the original or as anything else."),
+    "C09": dict(engine="total", level="fault_enumeration", note=CH_NOTE + " Uniformly random bytes are not modelled; seeded random mutations around every shape are run under catch_unwind.",
+                text="Totality.tla specifies Receive as a total decision procedure over 28 malformed-shape classes (null / empty / garbage sender certificate, missing or mis-sized thumbprint, unknown policy URI, ciphertext not a block multiple, message shorter than its signature, bogus padding, size mismatch, symmetric chunk before keys, OPN without own certificate ...) x OPN/MSG/CLO x role x policy x mode x key size, with the classes that must be security errors; TLC enumerates the classes; each shape is built from a valid chunk with real crypto and fed to the real verify_and_remove_security together with seeded mutations; TLC judges chunk-or-error, never a failure, security codes for the named classes."),
+})
+
+
+VIEW_NOTE = ("Trusted: TLC/SANY and the CommunityModules; harness/src/srv.rs (socket-less TcpTransport driven through the verif_message hook); the json<->Variant mapping and node / continuation-point numbering in h_view; a 1 ms sleep before each address-space modification (the continuation-point stamp is a wall clock); one session per case on a server shared within the process.")
+CLAIMS.update({
+    "C30": dict(engine="browse", level="model_checking", note=VIEW_NOTE + " Two modifications within the clock resolution are not exercised.",
+                text="Browse.tla models the session's continuation points as the code keeps them (snapshot, page size, address-space stamp, oldest evicted at the cap); BrowseProps.tla judges observation records only; TLC checks the design against the monitor (incl. a cap of 2) and shows that the former delete-without-stamp behaviour violates it; TLC-generated behaviours (every Browse argument combination on generated folders followed to the end of its chain, every interleaving with BrowseNext / release / node-management modifications to depth 3-4, random 10-call behaviours, more than 20 open continuation points) are replayed through the real Browse / BrowseNext / NodeManagement services; the monitor requires pages to concatenate to the unlimited result of the same state in order without duplicates, used / released / outdated / unknown continuation points to answer BadContinuationPointInvalid, and at most 20 to be served."),
+    "C32": dict(engine="attr", level="model_checking", note=VIEW_NOTE + " Write-compatibility cases the statement leaves open (Int16 into Int32, scalar <-> array, Empty) pass either way.",
+                text="Attribute.tla models Read / Write on Value (user access level, type family check, index ranges with SubSeq semantics on characters / bytes / elements) for Int32, Int32[4], ASCII and multi-byte String, ByteString and Byte[] variables in read-only / writable / user-not-writable variants; AttributeProps.tla is the property over observation records; TLC checks the design and shows that byte-indexed strings violate it; every single call, every pair and reduced triples (5 attribute ids x 11 index range strings x 9 written value classes) are replayed through the real Attribute services; the monitor requires a status and no panic for every combination, Good only with user write access and a compatible type family, read-after-Good-write equality (incl. index ranges), Bad write => unchanged."),
+})
+
 NOT_APPLICABLE = {
     "C41": "identity of a third-party YAML serializer over configuration records: no state, transition or case analysis for a TLA+ specification to own, and TLC cannot enumerate the string space that matters (DESIGN.md section 5)",
     "C42": "encode/decode fidelity of serde implementations with identity as the only oracle: outside what a TLA+ model decides (DESIGN.md section 5)",
 }
 ENGINES = [
+    {"name": "h_view", "path": "/verif/h_view", "serves_properties": ["C30", "C32"], "kind_free_text": "replays Browse.tla / Attribute.tla behaviours through the real View, NodeManagement and Attribute services; judged by TraceBrowse / TraceAttribute"},
+    {"name": "h_channel", "path": "/verif/h_channel", "serves_properties": ["C07", "C08", "C09"], "kind_free_text": "real chunking + channel security round trips, byte-position tampering and malformed-shape chunks; judged by TraceChunkLayout / TraceTamper / TraceTotality"},
     {"name": "services", "path": "/verif/harness/src/e_services.rs", "serves_properties": ["C33"], "kind_free_text": "concretises the abstract requests of Services.tla and sends them through the real MessageHandler; judged by TraceServices.tla"},
     {"name": "locks", "path": "/verif/harness/src/e_locks.rs", "serves_properties": ["C38"], "kind_free_text": "records lock acquisition programs of every server task kind from the real code (impl -> spec); composed by spec/Locks.tla"},
     {"name": "renew", "path": "/verif/harness/src/e_renew.rs", "serves_properties": ["C14"], "kind_free_text": "replays Renew.tla task interleavings on real client/server secure channels with harness-held FIFO wires; judged by TraceRenew.tla"},
